@@ -116,7 +116,7 @@ type RPC struct {
 	PeerOpt   bool     `json:"peer_opt,omitempty"`
 	Creds     *CredSpec `json:"creds,omitempty"`
 	CtxVals   int      `json:"ctx_vals,omitempty"` // number of caller context values (C10)
-	StartStep int      `json:"start_step,omitempty"`
+	After     int      `json:"after,omitempty"` // 1 + id of the call whose client side must have finished before this call starts (0: starts at once)
 	Expect       string `json:"expect,omitempty"`        // C12: own | none | either
 	KindMismatch bool   `json:"kind_mismatch,omitempty"` // C12: registered with the other call shape
 	Nested    bool     `json:"nested,omitempty"`     // C10: started from inside another handler, not by its own client actor
@@ -130,6 +130,7 @@ type CredSpec struct {
 	Secure bool `json:"secure"`
 	Fail   bool `json:"fail,omitempty"`
 	MD     []KV `json:"md,omitempty"`
+	DelayN int64 `json:"delay_ns,omitempty"` // virtual time the credential lookup takes (token refresh)
 }
 
 type KV struct {
